@@ -605,6 +605,11 @@ def check_coo(ctx, r, lines, expect, meta):
     src = f'bqm = dimod.BinaryQuadraticModel({lin!r}, {quad!r}, {r.choice([0.0, 1.5])!r}, {vt!r})'
     hdr = r.random() < .5
     code = f"new = coo.loads(coo.dumps(bqm, vartype_header={hdr}){'' if hdr else ', vartype=bqm.vartype'})"
+    if r.random() < .4:
+        # r8f: the file-object pair `dump` / `load` (a text stream), which must read back what `dumps` / `loads` do
+        code = (f"import io\nfp = io.StringIO()\ncoo.dump(bqm, fp, vartype_header={hdr})\nfp.seek(0)\n"
+                f"new = coo.load(fp{'' if hdr else ', vartype=bqm.vartype'})\nassert fp.getvalue().rstrip('\\n') == coo.dumps(bqm, vartype_header={hdr}).rstrip('\\n')")
+        ctx.tick('coo dump/load through a text stream')
     env = run_route(src, code)
     bqm, new = env['bqm'], env['new']
     ctx.tick('coo'); ctx.case(('coo', src, hdr), nontrivial=bool(lin or quad))
